@@ -12,6 +12,7 @@ import (
 	"fmt"
 	"io"
 	"net/http"
+	"runtime"
 	"sort"
 	"strings"
 
@@ -71,6 +72,43 @@ func (r *endlessReader) Read(p []byte) (int, error) {
 	}
 	r.pulled += n
 	return n, nil
+}
+
+// prefix, then nfill filler bytes, then suffix, then EOF
+type fillerReader struct {
+	prefix, suffix []byte
+	fill           byte
+	nfill          int
+	done           bool
+	maxRead        int
+}
+
+func (r *fillerReader) Read(p []byte) (int, error) {
+	if len(p) > r.maxRead {
+		r.maxRead = len(p)
+	}
+	switch {
+	case len(r.prefix) > 0:
+		n := copy(p, r.prefix)
+		r.prefix = r.prefix[n:]
+		return n, nil
+	case r.nfill > 0:
+		n := len(p)
+		if n > r.nfill {
+			n = r.nfill
+		}
+		for i := 0; i < n; i++ {
+			p[i] = r.fill
+		}
+		r.nfill -= n
+		return n, nil
+	case len(r.suffix) > 0:
+		n := copy(p, r.suffix)
+		r.suffix = r.suffix[n:]
+		return n, nil
+	}
+	r.done = true
+	return 0, io.EOF
 }
 
 func split(b []byte, sizes func(rem int) int) [][]byte {
@@ -1098,6 +1136,31 @@ func limitsDomain(ctx *hx.Ctx) {
 			ctx.Failf(-1, "limit-memory-unbounded", e.name, "%s: %d bytes pulled before the error, bound %d", e.name, er.pulled, e.bound)
 		}
 	}
+	// unbounded filler that is NOT an element (junk discarded by Read's resynchronisation loop, spaces before
+	// a header value): consumed without being retained. The heap must not grow with the amount of filler.
+	for _, f := range []struct {
+		name, prefix, suffix string
+		fill                 byte
+	}{
+		{"junk-before-message", "", "OPTIONS rtsp://h/ RTSP/1.0\r\nCSeq: 1\r\n\r\n", 'x'},
+		{"spaces-before-value", "OPTIONS rtsp://h/ RTSP/1.0\r\nCSeq:", "1\r\n\r\n", ' '},
+	} {
+		ctx.Eval()
+		ctx.Kind("limit filler " + f.name)
+		total := ctx.Budget(8<<20, 256<<20)
+		fr := &fillerReader{prefix: []byte(f.prefix), fill: f.fill, nfill: total, suffix: []byte(f.suffix)}
+		var m0, m1 runtime.MemStats
+		runtime.GC()
+		runtime.ReadMemStats(&m0)
+		res := readConn(fr, func() bool { return fr.done }, 1)
+		runtime.ReadMemStats(&m1)
+		grown := int64(m1.HeapAlloc) - int64(m0.HeapAlloc)
+		if len(res.msgs) != 1 {
+			ctx.Failf(-1, "filler-breaks-read", f.name, "%s: message after %d filler bytes not read (final=%d err=%v)", f.name, total, res.fin, res.err)
+		} else if grown > 4<<20 || fr.maxRead > 1<<16 {
+			ctx.Failf(-1, "limit-memory-unbounded", f.name, "%s: heap grew by %d bytes while discarding %d filler bytes (largest single read %d)", f.name, grown, total, fr.maxRead)
+		}
+	}
 	// many header lines, endless: refused after at most 255 lines
 	{
 		ctx.Eval()
@@ -1114,7 +1177,7 @@ func limitsDomain(ctx *hx.Ctx) {
 
 func malformedDomain(ctx *hx.Ctx) {
 	r := ctx.Rng
-	n := ctx.Budget(500, 12000)
+	n := ctx.Budget(500, 25000)
 	for i := 0; i < n; i++ {
 		var msgs []any
 		k := r.Range(1, 3)
@@ -1505,6 +1568,71 @@ func replay(ctx *hx.Ctx, lines []string) {
 			if fin == 77 {
 				ctx.Failf(idx, "b64-read-panic", ln, "panic")
 			}
+		case 2:
+			nilHdr := v[pos] != 0
+			pos++
+			getHdr := func() base.Header {
+				nk := int(v[pos])
+				pos++
+				h := base.Header{}
+				for i := 0; i < nk; i++ {
+					k := string(getBytes())
+					nv := int(v[pos])
+					pos++
+					vals := base.HeaderValue{}
+					for j := 0; j < nv; j++ {
+						vals = append(vals, string(getBytes()))
+					}
+					h[k] = vals
+				}
+				if nilHdr {
+					return nil
+				}
+				return h
+			}
+			var m any
+			kind := v[pos]
+			pos++
+			switch kind {
+			case 1:
+				req := &base.Request{Method: base.Method(getBytes())}
+				hasURL := v[pos] != 0
+				pos++
+				if hasURL {
+					u, err := base.ParseURL(string(getBytes()))
+					if err != nil {
+						fmt.Println("replay: URL of a marshal case does not parse")
+						continue
+					}
+					req.URL = u
+				}
+				req.Header = getHdr()
+				req.Body = getBytes()
+				m = req
+			case 2:
+				res := &base.Response{StatusCode: base.StatusCode(v[pos])}
+				pos++
+				res.StatusMessage = string(getBytes())
+				res.Header = getHdr()
+				res.Body = getBytes()
+				m = res
+			default:
+				fr := &base.InterleavedFrame{Channel: int(v[pos])}
+				pos++
+				fr.Payload = getBytes()
+				m = fr
+			}
+			cl := marshalCase(m)
+			il, _, panicked := marshalImpl(m)
+			idx := ctx.Corr(cl, il)
+			ctx.Eval()
+			if panicked {
+				cls := "marshal-panic"
+				if nilHdr {
+					cls = "marshal-nil-header-with-body-panics"
+				}
+				ctx.Failf(idx, cls, ln, "Marshal panicked")
+			}
 		default:
 			fmt.Println("replay: unsupported case kind", v[0])
 		}
@@ -1524,7 +1652,7 @@ func main() {
 	keyDomain(ctx)
 	limitsDomain(ctx)
 	// structured, well-formed sequences
-	n := ctx.Budget(220, 2000)
+	n := ctx.Budget(220, 4000)
 	for i := 0; i < n; i++ {
 		k := hx.Pick(r, 1, 1, 2, 3, 4, 6)
 		var msgs []any
